@@ -16,6 +16,7 @@ EXHAUSTIVE = "all tables with total <= N for every metric and bin type"
 RULE += " " + "The csv part also runs every categorical score along -x no/leadtime/location/time with one event (definition on the slice's table) and several events (mean of the per-event definitions)."
 RULE += " " + 'csv part: thresholds at the data extremes, one-decimal thresholds with ties, a station with a single valid pair, the droc0 point against the table.'
 RULE += " " + 'Rounds 9-10: part same (one pair of array objects evaluated for all eight bin types in random order); threshold pools of integers, one-decimal and many-decimal values.'
+RULE += " " + 'Rounds 11-12: infinite observations / forecasts are not valid pairs; skewed tables with cells of 10^5-10^6 cases.'
 ASSUMPTIONS = ["undefined = zero denominator or log of a non-positive number in the textbook formula"]
 REQUIRED_COUNTERS = ["obs_fcst_evals", "abcd_evals", "swap_checks", "complement_checks", "perfect_checks",
                      "csv_values", "contract:_compute_abcd"]
